@@ -91,12 +91,25 @@ func vp_C14_state_response() {
 
 	pubB, _ := vpKey("server-x")
 	verifier := &vpKeyVerifier{keys: map[spec.ServerName]ed25519.PublicKey{"x": ed25519.PublicKey(pubB)}}
-	resp := &vpStateResp{auth: EventJSONs{c.JSON(), j.JSON(), p.JSON()}, state: EventJSONs{c.JSON(), j.JSON(), p.JSON(), t.JSON()}}
+	// the copy of the join in the state list may differ from the copy in the auth list in its signatures only (the
+	// event ID does not cover signatures): same ID, independently good or bad
+	okJ2 := vpNondetBool("sig_ok.join_state_copy")
+	j2 := vpBuild(verImpl, vpAlice, spec.MRoomMember, vpStrPtr(vpAlice), vpJObj("membership", spec.Join), []string{c.EventID()}, 2, okJ2)
+	vpAssert("copies-share-the-id", j2.EventID() == j.EventID())
+	resp := &vpStateResp{auth: EventJSONs{c.JSON(), j.JSON(), p.JSON()}, state: EventJSONs{c.JSON(), j2.JSON(), p.JSON(), t.JSON()}}
 	authOut, stateOut, err := CheckStateResponse(context.Background(), resp, ver, verifier, nil, vpUserIDForSender)
 	vpAssert("no-error", err == nil)
 	if err != nil {
 		return
 	}
+	// whatever is returned has verified signatures (checked on the returned objects themselves)
+	for _, e := range authOut {
+		vpAssert("returned-auth-event-verifies", VerifyEventSignatures(context.Background(), e, verifier, vpUserIDForSender) == nil)
+	}
+	for _, e := range stateOut {
+		vpAssert("returned-state-event-verifies", VerifyEventSignatures(context.Background(), e, verifier, vpUserIDForSender) == nil)
+	}
+	okJ = okJ && okJ2 // a join of which one copy fails its signature check is not usable
 	// expected: signature good, and allowed by the signature-verified auth events
 	wantC := okC
 	wantJ := okJ && okC
@@ -206,4 +219,42 @@ func vp_C14_send_join_response() {
 	}
 	vpReach("accepted", err == nil)
 	vpReach("refused-by-state-only", err != nil && allowedUnder(citedRule))
+}
+
+// vp:check C06 both configs=version:1|10 K=24 timeout=900
+// vp:check C14 both configs=version:10 K=24 timeout=900
+// vp_C06_batch: VerifyAllEventSignatures returns one verdict per event, in order, and the verdict of an event is the
+// one it gets on its own - also when the batch holds several copies of one event (same ID, since the ID does not
+// cover signatures) that differ in whether the sender's server validly signed them, in either order, next to other
+// events. Real signatures (idealised ed25519) through a key-holding verifier.
+func vp_C06_batch() {
+	ver := RoomVersion(vpConfig("version"))
+	verImpl, err := GetRoomVersion(ver)
+	vpAssume(err == nil)
+	ok1, ok2, ok3 := vpNondetBool("sig_ok.copy1"), vpNondetBool("sig_ok.copy2"), vpNondetBool("sig_ok.other")
+	c := vpBuild(verImpl, vpAlice, spec.MRoomCreate, vpStrPtr(""), vpJObj("creator", vpAlice, "room_version", string(ver)), nil, 1, true)
+	e1 := vpBuild(verImpl, vpAlice, spec.MRoomMember, vpStrPtr(vpAlice), vpJObj("membership", spec.Join), []string{c.EventID()}, 2, ok1)
+	e2 := vpBuild(verImpl, vpAlice, spec.MRoomMember, vpStrPtr(vpAlice), vpJObj("membership", spec.Join), []string{c.EventID()}, 2, ok2)
+	o := vpBuild(verImpl, vpAlice, "m.room.topic", vpStrPtr(""), vpJObj("topic", "t"), []string{c.EventID()}, 3, ok3)
+	pubB, _ := vpKey("server-x")
+	verifier := &vpKeyVerifier{keys: map[spec.ServerName]ed25519.PublicKey{"x": ed25519.PublicKey(pubB)}}
+	var batch []PDU
+	var want []bool
+	switch vpChoice("order", "copy1-copy2-other", "other-copy2-copy1", "copy1-other-copy2") {
+	case "copy1-copy2-other":
+		batch, want = []PDU{e1, e2, o}, []bool{ok1, ok2, ok3}
+	case "other-copy2-copy1":
+		batch, want = []PDU{o, e2, e1}, []bool{ok3, ok2, ok1}
+	default:
+		batch, want = []PDU{e1, o, e2}, []bool{ok1, ok3, ok2}
+	}
+	errs := VerifyAllEventSignatures(context.Background(), batch, verifier, vpUserIDForSender)
+	vpAssert("one-verdict-per-event", len(errs) == len(batch))
+	if len(errs) == len(batch) {
+		for i := range batch {
+			vpAssert("verdict-of-each-event-is-its-own", (errs[i] == nil) == want[i])
+			vpAssert("same-as-alone", (errs[i] == nil) == (VerifyEventSignatures(context.Background(), batch[i], verifier, vpUserIDForSender) == nil))
+		}
+	}
+	vpReach("mixed", len(errs) == 3 && errs[0] == nil && errs[2] != nil)
 }
